@@ -80,6 +80,13 @@ def configs(tier):
                     if how == "set-replace" and nmem == 0:
                         continue
                     out.append(dict(kind="insert", n0=list(n0) if n0 == () else n0, nmem=nmem, n=list(n) if n == () else n, how=how))
+    # the same insertion step from a state REACHED through removals (del, pop, a failed pop, clear + rebuild): the shape the
+    # group holds its members to must be the one of the members it has now
+    for prep in ("del", "pop", "failed-pop", "clear-rebuild"):
+        for nmem in (1, 2):
+            for n0, n in ((2, 3), (3, 3), (3, 2)):
+                for how in ("set-new", "update", "set-vector"):
+                    out.append(dict(kind="insert", n0=n0, nmem=nmem, n=n, how=how, prep=prep))
     # update() with two items at once (each insertion is judged against the state at that moment), also on an empty group
     for n0 in (1, 2):
         for nmem in (0, 1):
@@ -277,8 +284,29 @@ def body(m, cfg):
         tag = f"{how}:mem{nmem}:{'same' if n0 == nn else 'other'}:{'scalar-group' if n0 == () else 'rows'}"
         dg = Datagroup()
         names = ["p", "q"][:nmem]
+        prep = cfg.get("prep")
+        if prep:
+            tag += ":after-" + prep
+        if prep == "clear-rebuild":
+            dg["old"] = Array(m.array("old", (n0[0] + 1,), "float64"), unit="m")
+            dg.clear()
         for nm in names:
             dg[nm] = Array(m.array(nm, n0, "float64"), unit="m")
+        if prep in ("del", "pop"):
+            extra = ["e1", "e2"]
+            for nm in extra:
+                dg[nm] = Array(m.array(nm, n0, "float64"), unit="m")
+            # remove the extras again, and (for one member) also remove and re-insert down to exactly the members wanted
+            for nm in extra:
+                if prep == "del":
+                    del dg[nm]
+                else:
+                    dg.pop(nm)
+        elif prep == "failed-pop":
+            try:
+                dg.pop("missing")
+            except KeyError:
+                pass
         before = {k: (id(dg[k]), m.vals(dg[k]._array)) for k in dg.keys()}
         if how == "set-vector":
             val = Vector(*[m.array("w" + c, nn, "float64") for c in "xy"], unit="s")
